@@ -28,9 +28,21 @@ func init() {
 			"(b) stream 'cut': 4 fixed dialogues x 2 back ends x every byte offset k of the client stream (first k bytes transmitted, complete " +
 			"lines before the last one answered and read, the rest sent and the client closed at once) plus the read-reply-then-close variant at " +
 			"every line boundary; exhaustive in both tiers; oracle acked <= stored <= acked + {message whose final .CRLF was completely " +
-			"transmitted}, every stored message equal in full to a dialogue message in a mailbox it was addressed to.",
+			"transmitted}, every stored message equal in full to a dialogue message in a mailbox it was addressed to. " +
+			"(c) stream 'wear': one server, 20-70 connections lost at assorted points, then a plain transaction that must be served as on a fresh server. " +
+			"(d) stream 'overlap': 3-7 sessions open on ONE server; per round 1-2 complete deliveries are held inside Deliver by a BeforeMessageStored " +
+			"listener while the other sessions play delivered and discarded (RSET/EHLO) transactions, 1-3 recipients from a shared pool of mailboxes, lines " +
+			"interleaved one by one in a drawn order or sessions in parallel goroutines, mem/file, GOMAXPROCS 1 or 4; oracle = every line answered as for a " +
+			"session alone on the server, and afterwards every mailbox holds exactly one complete message (Subject token, body bytes, no foreign token) per " +
+			"transaction acknowledged for it and nothing else. " +
+			"(e) stream 'burst': the real listener (Server.Start on a loopback address), 2-4 bursts of 4-16 TCP clients released together by a barrier, some " +
+			"connections kept open over the next burst, GOMAXPROCS 1 or 4; each client a strict lock-step dialogue to a mailbox of its own; oracle = the " +
+			"server's output per connection is exactly one 220 and one expected reply per line, nothing unsolicited, closed after 221; after cancel, Start " +
+			"and Drain return and every mailbox holds exactly the messages acknowledged to its client.",
 		Assumptions: []string{
-			"sessions are served through VerifServeConn (the real startSession) on an in-memory net.Conn; TCP/TLS transport is not part of the property",
+			"seq, cut, wear, overlap: sessions are served through VerifServeConn (the real startSession) on an in-memory net.Conn; burst: the real accept loop on loopback TCP; TLS transport is not part of the property",
+			"overlap: the listener that holds a delivery returns nil (no opinion), so the address policy decides exactly as without it",
+			"overlap, burst: a valid lock-step dialogue under default accept/store gets 220/250/354/250/221 (what a session alone on a fresh server gets); a failed connect or listen in burst is the machine's business (inconclusive)",
 			"naming 'local', default accept/store, recipient limit 200 or 3, message size limit 10 MB or 400 B: which commands are accepted is observed, not predicted",
 			"a line counts as a credential when it follows a 334 reply and is itself answered 334, 235 or 5xx; otherwise it is judged as a command",
 			"an over-long (>= 10 KiB) or binary line may legitimately end the session with at most one reply; every other line must get exactly one",
@@ -68,6 +80,24 @@ func init() {
 				"quit_221":                                               50,
 				"seq_sessions:mem":                                       100,
 				"seq_sessions:file":                                      100,
+				"wear_servers":                                           40,
+				"overlap_cases":                                          100,
+				"overlap_config:mem/procs=1":                             20,
+				"overlap_config:file/procs=1":                            20,
+				"overlap_held_deliveries":                                150,
+				"overlap_acknowledged_while_a_delivery_was_held":         300,
+				"overlap_discarded_while_a_delivery_was_held":            40,
+				"overlap_stored_copies_identical":                        600,
+				"overlap_stored_copies_of_held_deliveries_identical":     150,
+				"overlap_parallel_rounds":                                20,
+				"burst_servers":                                          40,
+				"burst_config:mem/procs=1":                               10,
+				"burst_connections":                                      800,
+				"max_burst_connections_released_together":                14,
+				"burst_replies_judged":                                   5000,
+				"burst_messages_stored_identical":                        800,
+				"burst_connections_kept_open_over_the_next_burst":        40,
+				"burst_servers_shut_down":                                40,
 			}
 		},
 		// Generous: file-store sessions stall for minutes when other runs saturate the disk.
@@ -87,6 +117,12 @@ func run(c *fw.Ctx) {
 	})
 	c.Cases("wear", c.N(60, 900), func(i int, r *fw.Rand) {
 		runWear(c, i, r)
+	})
+	c.Cases("overlap", c.N(120, 1600), func(i int, r *fw.Rand) {
+		runOverlap(c, i, r)
+	})
+	c.Cases("burst", c.N(48, 640), func(i int, r *fw.Rand) {
+		runBurst(c, i, r)
 	})
 	cs := cutCases()
 	c.Cases("cut", len(cs), func(i int, r *fw.Rand) {
